@@ -132,11 +132,12 @@ def judge_fault(rec, op, poslab, k, text, zero_tick, truth):
             rec.violation("zero-tempo-governs-events", f"'B 0' at tick {zero_tick} accepted although events at ticks {governed[:5]} / later tempo "
                           f"events at {later_tempo[:3]} are governed by it", case, "zero-tempo-accepted-with-governed-events")
             return
-        for q in (zero_tick, zero_tick + 1, zero_tick + 10**6):
+        for q in (zero_tick, zero_tick + 1, zero_tick + 10**6, zero_tick, zero_tick + 1):  # asked twice: a failed query must stay failed
+          for fn in (be.timestamp_at_tick, be.timestamp_at_tick_no_optimize_return, lambda t: be.timestamp_at_tick(t, start_iteration_index=len(be) - 1)):
             rec.ev()
             try:
-                r = be.timestamp_at_tick(q)
-                rec.violation("zero-tempo-query-returns", f"'B 0' at tick {zero_tick}: timestamp_at_tick({q}) returned {r[0]}", case,
+                r = fn(q)
+                rec.violation("zero-tempo-query-returns", f"'B 0' at tick {zero_tick}: a tick-to-time query for tick {q} returned {r}", case,
                               "zero-tempo-query-returns")
                 return
             except ValueError:
@@ -166,7 +167,7 @@ def judge_fault(rec, op, poslab, k, text, zero_tick, truth):
 def negative_queries(rec, chart, text):
     be = chart.sync_track.bpm_events
     last = len(be) - 1
-    for q in (-1, -(10**9)):
+    for q in (-1, -(10**9), -1):  # -1 twice: a failed query must stay failed when repeated
         for fn, nm in ((be.timestamp_at_tick, "timestamp_at_tick"), (be.timestamp_at_tick_no_optimize_return, "timestamp_at_tick_no_optimize_return"),
                        (lambda t: be.timestamp_at_tick(t, start_iteration_index=last), f"timestamp_at_tick(start_iteration_index={last})"),
                        (lambda t: be.timestamp_at_tick(t, start_iteration_index=0), "timestamp_at_tick(start_iteration_index=0)")):
@@ -231,7 +232,7 @@ def run_shard(shard, rec, tier, seed):
     harness.setup()
     for i in range(shard["count"]):
         rng = harness.rng_for(seed, ID, shard["name"], i)
-        nt = rng.choice([1, 2, 3, 8, 20, 40])
+        nt = rng.choice([1, 2, 3, 8, 20, 40]) if i % 7 != 3 else rng.choice([70, 130])
         case = gen.gen_chart(rng, "hostile" if i % 3 == 0 else "realistic", n_tempos=nt, n_tracks=rng.choice([1, 2]),
                              n_groups=rng.choice([3, 12]), n_globals=rng.choice([0, 4]), shuffle_sections=False, newline="\n")
         # canonical sync section (the generator's own may use leading zeros / other orders): re-render from truth
@@ -253,6 +254,11 @@ def run_shard(shard, rec, tier, seed):
         # zero tempo as last event with nothing after it
         T = case["truth"]["tempos"]
         far = max([0] + [t for t, _ in T] + all_event_ticks(base.chart)) + 1000
+        # the healthy chart answers the same ticks first and is then dropped (a stale per-object memo would survive it)
+        for q in (far, far + 1, far + 10**6):
+            base.chart.sync_track.bpm_events.timestamp_at_tick_no_optimize_return(q)
+            base.chart.sync_track.bpm_events.timestamp_at_tick(q)
+        del base
         lines = sync_lines(case["truth"]) + [f"  {far} = B 0"]
         judge_fault(rec, "zero_B", "last", len(T), rebuild(case, lines), far, case["truth"])
         if i < 1:
